@@ -1,11 +1,15 @@
 /-
 Property C03 — exactly the covered files are examined.
 `Model.iterFiles` mirrors the pruned `os.walk` of `iter_files` with
-`is_path_ignored`; the version control system is an oracle; the name rules are
-the patterns generated from the source.
+`is_path_ignored`; in `C03_walk` … `C03_subset` the version control system is an oracle; the
+name rules are the patterns generated from the source.  The `C03_vcs_*` theorems put the logic
+of `src/reuse/vcs.py` (`Model/Vcs.lean`: parsing of the raw command outputs, `is_ignored`,
+`is_submodule`, choice of the strategy) in place of the oracle; what stays outside is Git's own
+ignore semantics, stated as the contract `Spec.Vcs.ListingContract`.
 -/
 import ReuseVerif.Lemmas.Covered
 import ReuseVerif.Lemmas.NamesMain
+import ReuseVerif.Lemmas.Vcs
 
 namespace C03
 open Model Spec
@@ -98,5 +102,232 @@ example (cfg : WalkCfg) (h1 : fileIgnored cfg ["d"] "b.c" 1 = false) (h2 : dirIg
     ["d", "b.c"] ∈ iterFiles cfg "" [("e", .file 0), ("l", .symlink), ("d", .dir [("b.c", .file 1)])] := by
   rw [C03_walk]
   exact .dir (sub := [("b.c", .file 1)]) (by simp) h2 (.file (size := 1) (List.mem_singleton.mpr rfl) h1)
+
+/-! ### `vcs.py`'s own logic in place of the oracle -/
+
+open Model.Vcs Spec.Vcs
+
+/-- (a) `VCSStrategyGit.is_ignored` (and Mercurial's) on a path the walk asks about — the root
+    as it was spelt, followed by names — holds exactly when the root-relative path is an entry
+    of the raw listing; for every listing, every spelling of the root, every working directory,
+    every depth. -/
+theorem C03_vcs_is_ignored (raw : Py.Text) (cwd : List Py.Text) (root : PPath) (comps : List Py.Text) :
+    listedIgnored (gitIgnoredSet raw) cwd root (walkPath root comps) = true ↔ Listed raw comps := by
+  simp only [listedIgnored, relativeFromRoot_walkPath, gitIgnoredSet, List.contains_iff_mem, List.mem_map, Listed]
+
+/-- (a) What "entry" means for a listing as the programs print it (`-z`: every entry followed
+    by NUL; a directory with or without the trailing slash): the path is one of the printed
+    paths.  Names of any kind — blanks, line breaks, non-ASCII — except NUL and `/`. -/
+theorem C03_vcs_listing_entries (es : List (List Py.Text × Bool))
+    (hes : ∀ e ∈ es, e.1 ≠ [] ∧ ∀ x ∈ e.1, IsName x ∧ '\x00' ∉ x) (comps : List Py.Text) (hc : comps ≠ []) :
+    Listed (rawListing es) comps ↔ ∃ slash, (comps, slash) ∈ es := by
+  unfold Listed
+  rw [splitSep_rawListing es (fun e he x hx => ((hes e he).2 x hx).2)]
+  constructor
+  · rintro ⟨t, ht, hp⟩
+    rcases List.mem_append.mp ht with ht | ht
+    · obtain ⟨⟨cs, b⟩, he, rfl⟩ := List.mem_map.mp ht
+      rw [parsePath_entryText (hes _ he).1 (fun x hx => ((hes _ he).2 x hx).1)] at hp
+      simp only [PPath.mk.injEq, true_and] at hp
+      exact ⟨b, hp ▸ he⟩
+    · simp only [List.mem_singleton] at ht
+      rw [ht, parsePath_nil] at hp
+      simp only [PPath.mk.injEq, true_and] at hp
+      exact absurd hp.symm hc
+  · rintro ⟨b, he⟩
+    refine ⟨entryText comps b, List.mem_append_left _ (List.mem_map.mpr ⟨(comps, b), he, rfl⟩), ?_⟩
+    exact parsePath_entryText (hes _ he).1 (fun x hx => ((hes _ he).2 x hx).1) b
+
+/-- (a) The rule about parent directories is the pruning of the walk: `is_ignored` itself only
+    looks the path up, but for every tree the walk yields the same files as it would with the
+    verdict "the path or one of its ancestors below the root is listed" (any depth). -/
+theorem C03_vcs_walk_ancestors (cfg : WalkCfg) (rootName : String) (cs : List (String × Node)) (p : List String) :
+    p ∈ iterFiles cfg rootName cs ↔
+      p ∈ iterFiles { cfg with vcsIgnored := listedAboveB cfg.vcsIgnored } rootName cs := by
+  rw [C03_walk, C03_walk, coveredIn_iff_covered, coveredIn_iff_covered]
+  apply covered_congr
+  intro size _
+  constructor
+  · intro h q hq hne
+    simp only [listedAboveB, List.any_eq_false]
+    intro r hr
+    obtain ⟨hrq, hrne⟩ := mem_prefixes.mp hr
+    simpa using h r (hrq.trans hq) hrne
+  · intro h q hq hne
+    have := h q hq hne
+    simp only [listedAboveB, List.any_eq_false] at this
+    simpa using this q (mem_prefixes.mpr ⟨List.prefix_refl q, hne⟩)
+
+/-- (b) Under the contract between a listing and Git's verdict (`Spec.Vcs.ListingContract`:
+    every file at or below a listed entry is ignored; every ignored file is listed or below a
+    listed directory — the half Git's `--directory` output violates in the known finding
+    `c03-git-ignored-in-untracked-dir`), the walk driven by the listing yields exactly the
+    covered files of C03's specification under Git's verdict.  Composes `C03_walk`. -/
+theorem C03_vcs_walk_contract (cfg : WalkCfg) (ign : List String → Bool) (rootName : String)
+    (cs : List (String × Node)) (p : List String)
+    (hd : DownClosed ign) (hc : ListingContract cfg.vcsIgnored ign cs) :
+    p ∈ iterFiles cfg rootName cs ↔ CoveredIn { cfg with vcsIgnored := ign } [] rootName cs p := by
+  rw [C03_walk, coveredIn_iff_covered, coveredIn_iff_covered]
+  apply covered_congr
+  intro size hat
+  have hne := at_ne_nil hat
+  constructor
+  · intro h q hq hqne
+    cases hi : ign q with
+    | false => rfl
+    | true =>
+      obtain ⟨r, hr⟩ := hq
+      have hp : ign p = true := by rw [← hr]; exact hd q r hi
+      obtain ⟨e, he, hene, hl⟩ := hc.complete p size hat hp
+      rw [h e he hene] at hl
+      cases hl
+  · intro h q hq hqne
+    cases hl : cfg.vcsIgnored q with
+    | false => rfl
+    | true =>
+      have := hc.sound q p size hl hqne hq hat
+      rw [h p (List.prefix_refl p) hne] at this
+      cases this
+
+/-- the walk's `vcs_strategy.is_ignored` with Git, as a function of the raw listing alone -/
+theorem C03_vcs_cfg_ignored (raw1 raw2 : Py.Text) (st : State) (hst : State.init .git raw1 raw2 = some st)
+    (cwd : List Py.Text) (root : PPath) (f1 f2 f3 : Bool) :
+    (walkCfg st cwd root f1 f2 f3).vcsIgnored = listedB raw1 := by
+  simp only [State.init, Option.map_eq_some_iff] at hst
+  obtain ⟨subs, _, rfl⟩ := hst
+  funext q
+  simp [walkCfg, State.isIgnored, listedIgnored, relativeFromRoot_walkPath, listedB]
+
+/-- (b) The same with the strategy object built from Git's raw outputs: for every listing that
+    keeps the contract, every spelling of the root and every working directory, `iter_files`
+    with `VCSStrategyGit` yields C03's covered files under `git check-ignore`'s verdict. -/
+theorem C03_vcs_git_walk (raw1 raw2 : Py.Text) (st : State) (hst : State.init .git raw1 raw2 = some st)
+    (cwd : List Py.Text) (root : PPath) (f1 f2 f3 : Bool) (ign : List String → Bool) (rootName : String)
+    (cs : List (String × Node)) (p : List String)
+    (hd : DownClosed ign) (hc : ListingContract (listedB raw1) ign cs) :
+    p ∈ iterFiles (walkCfg st cwd root f1 f2 f3) rootName cs ↔
+      CoveredIn { walkCfg st cwd root f1 f2 f3 with vcsIgnored := ign } [] rootName cs p := by
+  apply C03_vcs_walk_contract _ _ _ _ _ hd
+  rw [C03_vcs_cfg_ignored raw1 raw2 st hst]
+  exact hc
+
+/-- (c) `VCSStrategyGit.is_submodule` on a path of the walk: the root-relative path is one of
+    the `.gitmodules` paths — whatever the working directory of the process and however the
+    root is spelt (both sides of the comparison are put below the root and resolved, so root
+    and working directory cancel).  For paths without `..` (the walk's names never are;
+    `.gitmodules` paths are normal, relative); `resolve()` is modelled lexically, i.e. no
+    symbolic link among the directories of the project on the way (the walk never enters one). -/
+theorem C03_vcs_submodule (subs : List PPath) (cwd : List Py.Text) (root : PPath) (comps : List Py.Text)
+    (hcomps : NoDotDot comps) (hsubs : ∀ s ∈ subs, s.anchor = [] ∧ NoDotDot s.parts) :
+    gitIsSubmodule subs cwd root (walkPath root comps) = subs.contains ⟨[], comps⟩ := by
+  rw [Bool.eq_iff_iff]
+  simp only [gitIsSubmodule, relativeFromRoot_walkPath, List.any_eq_true, beq_iff_eq, List.contains_iff_mem]
+  constructor
+  · rintro ⟨s, hs, he⟩
+    obtain ⟨ha, hp⟩ := hsubs s hs
+    obtain ⟨a, ps⟩ := s
+    simp only at ha hp
+    subst ha
+    rw [resolveLex_join_eq_iff cwd root hcomps hp] at he
+    rw [he]; exact hs
+  · intro hm
+    exact ⟨_, hm, rfl⟩
+
+/-- (c) … in particular the answer is the same from any two working directories. -/
+theorem C03_vcs_submodule_cwd (subs : List PPath) (cwd₁ cwd₂ : List Py.Text) (root₁ root₂ : PPath)
+    (comps : List Py.Text) (hcomps : NoDotDot comps) (hsubs : ∀ s ∈ subs, s.anchor = [] ∧ NoDotDot s.parts) :
+    gitIsSubmodule subs cwd₁ root₁ (walkPath root₁ comps) = gitIsSubmodule subs cwd₂ root₂ (walkPath root₂ comps) := by
+  rw [C03_vcs_submodule subs cwd₁ root₁ comps hcomps hsubs, C03_vcs_submodule subs cwd₂ root₂ comps hcomps hsubs]
+
+/-- Jujutsu: ignored iff no tracked path is the path itself or lies below it. -/
+theorem C03_vcs_jujutsu (tracked : List PPath) (cwd : List Py.Text) (root : PPath) (comps : List Py.Text) :
+    jjIsIgnored tracked cwd root (walkPath root comps) = true ↔ ∀ t ∈ tracked, ¬ comps <+: t.allParts := by
+  simp only [jjIsIgnored, relativeFromRoot_walkPath, PPath.allParts, List.isEmpty_nil, if_true,
+    Bool.not_eq_true', List.any_eq_false, beq_iff_eq]
+  constructor
+  · intro h t ht hp
+    exact h t ht (List.prefix_iff_eq_take.mp hp).symm
+  · intro h t ht he
+    exact h t ht (List.prefix_iff_eq_take.mpr he.symm)
+
+/-- Pijul: ignored iff the path is not a line of `pijul list`. -/
+theorem C03_vcs_pijul (tracked : List PPath) (cwd : List Py.Text) (root : PPath) (comps : List Py.Text) :
+    pijulIsIgnored tracked cwd root (walkPath root comps) = true ↔ (⟨[], comps⟩ : PPath) ∉ tracked := by
+  simp [pijulIsIgnored, relativeFromRoot_walkPath]
+
+/-- (d) The order in which the strategies are tried (regenerated from the live module). -/
+theorem C03_vcs_order : Model.Vcs.order = [.none, .git, .hg, .jujutsu, .pijul] := by decide
+
+/-- (d) `VCSStrategyNone` is chosen iff no strategy qualifies (program installed and the root in
+    its repository). -/
+theorem C03_vcs_detect_none (ord : List Strategy) (exe inRepo : Strategy → Bool) :
+    detectIn ord exe inRepo = .none ↔ ∀ s ∈ ord, ¬ Qualifies exe inRepo s := by
+  unfold detectIn Qualifies
+  constructor
+  · intro h s hs ⟨h1, h2, h3⟩
+    cases hf : ord.find? (fun s => s != .none && exe s && inRepo s) with
+    | none =>
+      have := List.find?_eq_none.mp hf s hs
+      simp [h1, h2, h3] at this
+    | some t =>
+      rw [hf] at h
+      simp only [Option.getD_some] at h
+      have := List.find?_some hf
+      simp [h] at this
+  · intro h
+    cases hf : ord.find? (fun s => s != .none && exe s && inRepo s) with
+    | none => rfl
+    | some t =>
+      have ht := List.find?_some hf
+      have hm := List.mem_of_find?_eq_some hf
+      simp only [Bool.and_eq_true, bne_iff_ne, ne_eq] at ht
+      exact absurd ⟨ht.1.1, ht.1.2, ht.2⟩ (h t hm)
+
+/-- (d) Deterministic priority: the chosen strategy qualifies and nothing tried before it does. -/
+theorem C03_vcs_detect_first (ord : List Strategy) (exe inRepo : Strategy → Bool) (s : Strategy)
+    (h : detectIn ord exe inRepo = s) (hs : s ≠ .none) :
+    Qualifies exe inRepo s ∧ ∃ before after, ord = before ++ s :: after ∧ ∀ t ∈ before, ¬ Qualifies exe inRepo t := by
+  unfold detectIn at h
+  cases hf : ord.find? (fun s => s != .none && exe s && inRepo s) with
+  | none => rw [hf] at h; exact absurd h.symm hs
+  | some t =>
+    rw [hf] at h
+    simp only [Option.getD_some] at h
+    subst h
+    obtain ⟨ht, before, after, hord, hb⟩ := List.find?_eq_some_iff_append.mp hf
+    simp only [Bool.and_eq_true, bne_iff_ne, ne_eq] at ht
+    refine ⟨⟨ht.1.1, ht.1.2, ht.2⟩, before, after, hord, ?_⟩
+    intro u hu ⟨h1, h2, h3⟩
+    have := hb u hu
+    simp [h1, h2, h3] at this
+
+-- Non-vacuity of the `C03_vcs_*` hypotheses.
+example : IsName "sp ace\n".toList ∧ '\x00' ∉ "sp ace\n".toList := by unfold IsName; decide
+example : Listed (rawListing [(["build".toList], true), (["src".toList, "b.o".toList], false)]) ["build".toList] :=
+  (C03_vcs_listing_entries _ (by unfold IsName; decide) _ (by decide)).mpr ⟨true, by decide⟩
+example : NoDotDot ["mod".toList] := by unfold NoDotDot; decide
+example : State.init .git "build/\x00".toList "submodule.m.path\nmod\x00".toList =
+    some ⟨.git, [⟨[], ["build".toList]⟩, ⟨[], []⟩], [⟨[], ["mod".toList]⟩]⟩ := by decide
+-- a tree, a listing and a verdict that keep the contract: `build/` listed, `build/x` ignored
+example : ListingContract (fun q => q == ["build"]) (fun q => q.head? == some "build")
+    [("build", .dir [("x", .file 1)]), ("a.c", .file 1)] where
+  sound := by
+    intro e f size he _ hp _
+    simp only [beq_iff_eq] at he
+    subst he
+    obtain ⟨r, rfl⟩ := hp
+    rfl
+  complete := by
+    intro f size _ hi
+    refine ⟨["build"], ?_, by simp, rfl⟩
+    cases f with
+    | nil => simp at hi
+    | cons a t => simp only [List.head?_cons, beq_iff_eq, Option.some.injEq] at hi; exact ⟨t, by simp [hi]⟩
+example : DownClosed (fun q => q.head? == some "build") := by
+  intro p q h
+  cases p with
+  | nil => simp at h
+  | cons a t => simpa using h
+example : Qualifies (fun _ => true) (fun s => s == .git) .git := by unfold Qualifies; decide
 
 end C03
